@@ -1,6 +1,11 @@
 package main
 
-import "encoding/json"
+import (
+	"encoding/json"
+	"fmt"
+
+	"github.com/akrennmair/updog"
+)
 
 func init() {
 	runners["C01"] = runC01
@@ -175,3 +180,108 @@ func (r *Report) Sample0(c *IdxCase) {
 		r.Sample(c)
 	}
 }
+
+// ---------- C03: cache transparency ----------
+
+func keyString(e *Ex) string {
+	return fmt.Sprintf("ok %016x", updog.VerifCacheKey(toExpr(e)))
+}
+
+// structured families aimed at key collisions: same leaves re-associated under different operators,
+// duplicated operands, NOT pairs, permutations.
+func c03Family(r *Rng, p *leafPool) []*Ex {
+	l := func() *Ex { return p.leaf(r, false) }
+	a, b, c := l(), l(), l()
+	N := func(x *Ex) *Ex { return &Ex{Op: "N", Kids: []*Ex{x}} }
+	A := func(xs ...*Ex) *Ex { return &Ex{Op: "A", Kids: xs} }
+	O := func(xs ...*Ex) *Ex { return &Ex{Op: "O", Kids: xs} }
+	switch r.Intn(9) {
+	case 0:
+		return []*Ex{A(O(a, c), O(b, c)), A(N(a), N(b))}
+	case 1:
+		return []*Ex{A(a, a, b), A(b), A(a, a), A(b, b), A(c, c)}
+	case 2:
+		return []*Ex{O(a, a, b), O(b), O(a, a), O(c, c)}
+	case 3:
+		return []*Ex{A(a, b), O(a, b), A(b, a), O(b, a), N(A(a, b)), N(O(a, b))}
+	case 4:
+		return []*Ex{N(N(a)), a, N(a), N(N(N(a)))}
+	case 5:
+		return []*Ex{A(O(a, b), c), O(A(a, b), c), A(a, O(b, c)), O(a, A(b, c)), A(a, b, c), O(a, b, c)}
+	case 6:
+		return []*Ex{A(A(a, b), c), A(a, A(b, c)), A(a, b, c), A(O(a), b), O(A(a), b)}
+	case 7:
+		return []*Ex{O(A(a, c), A(b, c)), O(N(a), N(b)), A(N(a), N(b)), N(O(a, b))}
+	default:
+		return []*Ex{A(a, N(a)), O(a, N(a)), A(N(a), a), O(b, N(b)), A(b, N(b))}
+	}
+}
+
+func runC03(rep *Report, r *Rng, tier string) {
+	rep.Rule = "query histories (<=30 queries) on ONE open index with cache in {none, LRU 0, tiny, a few entries, ample} x {on-demand, preloaded}; every answer compared with the Lean model (cache-free) and with a freshly opened uncached index; histories mix random trees over a 2..5-leaf pool (many shared sub-expressions) with structured families (same leaves re-associated under different operators, duplicated operands, NOT pairs, permutations); plus the cache-key function compared with the model's key (xxhash64 in Lean) on every expression; non-trivial = query at history position >= 1 with non-zero count; distinct by (dataset, cache, history prefix hash, query)"
+	o := StartOracle()
+	defer o.Close()
+	n := 250
+	if tier == "thorough" {
+		n = 2500
+	}
+	caps := []int64{-1, 0, 150, 700, 5000, 1 << 22}
+	for i := 0; i < n; i++ {
+		d := genDataSpec(r, 400, false)
+		if d.NRows < 3 {
+			d.NRows = 3 + r.Intn(40)
+		}
+		rows := d.Materialize()
+		pool := poolOf(rows)
+		if len(pool.cols) == 0 {
+			continue
+		}
+		// shrink the leaf pool so that sub-expressions recur
+		small := &leafPool{}
+		for k := 0; k < 1+r.Intn(3) && k < len(pool.cols); k++ {
+			ci := r.Intn(len(pool.cols))
+			vs := pool.vals[ci]
+			if len(vs) > 3 {
+				vs = vs[:3]
+			}
+			small.cols = append(small.cols, pool.cols[ci])
+			small.vals = append(small.vals, vs)
+		}
+		c := &IdxCase{Data: d, Writer: Pick(r, writers), Preload: r.Chance(1, 2), Cache: Pick(r, caps), Fresh: true}
+		nq := 4 + r.Intn(26)
+		for len(c.Queries) < nq {
+			if r.Chance(1, 2) {
+				for _, e := range c03Family(r, small) {
+					c.Queries = append(c.Queries, QCase{E: e})
+				}
+			} else {
+				q := QCase{E: genExpr(r, small, 1+r.Intn(4), false)}
+				if r.Chance(1, 4) {
+					q.GB = genGroupBy(r, small, false)
+				}
+				c.Queries = append(c.Queries, q)
+			}
+		}
+		if r.Chance(1, 2) { // shuffle so that colliding pairs meet in both orders
+			for k := len(c.Queries) - 1; k > 0; k-- {
+				j := r.Intn(k + 1)
+				c.Queries[k], c.Queries[j] = c.Queries[j], c.Queries[k]
+			}
+		}
+		rep.Sample0(c)
+		rep.Count(fmt.Sprintf("cache=%d", c.Cache))
+		runIdxCase(o, c, rep, flagsFor("C03"))
+		// internal tie: the code's cache key function = the model's
+		for qi := range c.Queries {
+			e := c.Queries[qi].E
+			got := keyString(e)
+			if want := o.Ask("idx key " + e.Toks()); want != got {
+				rep.Violate(Violation{Kind: "obligation", Signature: "C03:cachekey-differs-from-model", What: "cacheKey() differs from the model's key function for " + e.Toks(), Expected: want, Actual: got, Case: c})
+			}
+			rep.Count("keys-compared")
+		}
+	}
+	rep.OracleCalls = o.n
+}
+
+func init() { runners["C03"] = runC03 }
